@@ -87,6 +87,39 @@ static std::string refine_args(int c, int kind) {
   if (m.NumTri() < base.NumTri()) return "fewer triangles than the input";
   return "";
 }
+// misc_args: v = case   -- out-of-domain numeric arguments found by probing (finding 16); required: returns normally (no
+// sanitizer report), index-valid and finite, and either an error status with an empty object or a usable result
+static std::string misc_args(int c) {
+  const double nan = std::nan("");
+  auto sdf = [](vec3 p) { return 0.8 - la::length(p); };
+  Box b({-1, -1, -1}, {1, 1, 1});
+  Manifold cube = Manifold::Cube(), sph = Manifold::Sphere(1, 16), m;
+  bool must_be_invalid = false;
+  alarm(120);
+  switch (c) {
+    case 0: m = Manifold::Extrude({{{0, 0}, {1, 0}, {0, 1}}}, 1, -3); must_be_invalid = true; break;
+    case 1: m = Manifold::LevelSet(sdf, b, 0.0); must_be_invalid = true; break;
+    case 2: m = Manifold::LevelSet(sdf, b, nan); must_be_invalid = true; break;
+    case 3: m = Manifold::LevelSet(sdf, b, -0.2); must_be_invalid = true; break;
+    case 4: m = Manifold::LevelSet(sdf, b, 0.2, nan); must_be_invalid = true; break;
+    case 5: m = Manifold::LevelSet(sdf, Box({nan, -1, -1}, {1, 1, 1}), 0.2); must_be_invalid = true; break;
+    case 6: m = Manifold::LevelSet(sdf, Box({-1, -1, -1}, {INFINITY, 1, 1}), 0.2); must_be_invalid = true; break;
+    case 7: m = cube.SetProperties(-1, [](double*, vec3, const double*) {}); break;
+    case 8: m = sph.SmoothByNormals(-5); break;
+    case 9: m = sph.SmoothByNormals(7); break;
+    case 10: m = cube.SetProperties(2, [](double* p, vec3 v, const double*) { p[0] = v.x; p[1] = v.y; }).SmoothByNormals(0); break;   // 2 channels: no room for a normal
+    default: m = cube.CalculateCurvature(-5, 2);
+  }
+  alarm(0);
+  auto st = m.Status();
+  MeshGL64 g = m.GetMeshGL64();
+  const size_t nv = g.NumVert();
+  for (auto i : g.triVerts) if (i >= nv) return "a triangle references vertex " + std::to_string(i) + " of " + std::to_string(nv);
+  for (double v : g.vertProperties) if (!std::isfinite(v)) return "non-finite number in the result";
+  if (st != Manifold::Error::NoError) return m.IsEmpty() ? "" : "error status but not empty";
+  if (must_be_invalid) return "an argument outside the domain gave Status NoError";
+  return m.NumTri() > 0 ? "" : "NoError but empty";
+}
 // revolve_angle: v = angle in millidegrees
 static std::string revolve_angle(long md) {
   Polygons sq2 = {{{1, 0}, {2, 0}, {2, 1}, {1, 1}}};
@@ -154,6 +187,15 @@ int main(int argc, char** argv) {
     report_summary(1, "degenerate_polygon");
     return 0;
   }
+  if (!strcmp(mode, "run") && argc > 2 && !strcmp(argv[2], "misc_args")) {
+    auto in = parse_nums(argc > 3 ? argv[3] : "");
+    while (in.size() < 1) in.push_back(0);
+    report_current("misc_args", in);
+    auto s = misc_args((int)in[0]);
+    if (!s.empty()) { report_fail("misc_args", in, s); return 1; }
+    report_summary(1, "misc_args");
+    return 0;
+  }
   if (!strcmp(mode, "run") && argc > 2 && !strcmp(argv[2], "refine_args")) {
     auto in = parse_nums(argc > 3 ? argv[3] : "");
     while (in.size() < 2) in.push_back(0);
@@ -206,6 +248,13 @@ int main(int argc, char** argv) {
       ++runs;
       if (!s.empty()) { report_fail("degenerate_polygon", in, s); ++badn; }
     }
+  for (int c = 0; c < 12; ++c) {
+    std::vector<long long> in = {c};
+    report_current("misc_args", in);
+    auto s = misc_args(c);
+    ++runs;
+    if (!s.empty()) { report_fail("misc_args", in, s); ++badn; }
+  }
   for (int c = 0; c < 2; ++c)
     for (int k = 0; k < 5; ++k) {
       std::vector<long long> in = {c, k};
@@ -222,6 +271,6 @@ int main(int argc, char** argv) {
       ++runs;
       if (!s.empty()) { report_fail("input_nonfinite", in, s); ++badn; }
     }
-  report_summary(runs, "ctor_nonfinite_arg,revolve_angle,degenerate_polygon,refine_args,input_nonfinite");
+  report_summary(runs, "ctor_nonfinite_arg,revolve_angle,degenerate_polygon,misc_args,refine_args,input_nonfinite");
   return badn ? 1 : 0;
 }
